@@ -21,7 +21,6 @@ RULE = (
 ASSUMPTIONS = [
     "resume is requested only when no action is dormant (a provider resumes an inquiry by completing it)",
     "rerun only at full rest, only after an unhandled task failure (rerun after a fail command or with nothing to rerun is known finding R10/R11 owned by C17)",
-    "runs are abandoned (counted) at the trigger of known finding R1 (late arrival at a fired join N) owned by C07",
 ]
 
 RESTING = ("succeeded", "failed", "canceled", "paused")
@@ -42,8 +41,6 @@ class Quiescence(object):
             self.pause_seen = True
         if drv.dormant:
             self.dormant_seen = True
-        if self.flow.late_arrivals:
-            return
         if drv.inflight:
             return
         probe = drv.next_tasks()
@@ -77,14 +74,10 @@ def run(scn, stats):
     fo = refsem.FlowObserver(scn["ir"])
     q = Quiescence(fo.flow)
 
-    def stop(r):
-        return bool(fo.flow.late_arrivals)
-
-    defn, r = common.run(scn, stats, observers=[fo, q], stop=stop)
+    stop = None
+    defn, r = common.run(scn, stats, observers=[fo, q], post_poll=True)
     flow = fo.flow
-    if flow.late_arrivals:
-        stats.excluded["R1"] += 1
-    elif scn.get("rerun") and r.engine_exception is None and not r.truncated and r.at_rest() and r.d.status() == "failed":
+    if scn.get("rerun") and r.engine_exception is None and not r.truncated and r.at_rest() and r.d.status() == "failed":
         if flow.unhandled and not flow.fail_cmd and not flow.runtime_error:
             try:
                 rec = r.step({"op": "rerun", "tasks": None})
